@@ -55,4 +55,16 @@ var registry = []propCfg{
 		},
 		Assum: []string{"q=0 ranges, invalid q syntax, non-SP whitespace and partial wildcards overlapping Produces are outside the grammar (unspecified by the statement)", "determinism is sampled: 12 repetitions per header"},
 	},
+	{
+		ID: "C08", Level: "exploration",
+		Rule:  "rapid draws a CORS configuration (0-4 AllowedDomains from an origin pool, optionally the .* wildcard entry; optional AllowedDomainFunc = case-insensitive membership in a second set; CookiesAllowed; ExposeHeaders; MaxAge; AllowedMethods configured or computed; AllowedHeaders list, wildcard or none), a small route table and 1-10 requests (35% OPTIONS preflights) whose Origin is absent or derived from an allowed entry: identity, case variant, proper prefix, proper suffix, superstring (suffix/prefix appended), scheme swap, 'null', pool or arbitrary ASCII string. Oracle: allowed(origin) restated from the statement; not allowed or absent: no Access-Control-* header at all and status, all headers, body, handler and filter log equal a twin container without the filter; allowed: Allow-Origin, if present, is the origin verbatim exactly once and Allow-Credentials only if configured. Non-trivial: some request's Origin is a case variant or near miss (substring/superstring/scheme variant) of a configured entry. Distinct: FNV-64 of the case JSON.",
+		Parts: []partCfg{{Test: "TestC08", Quick: 20000, Thorough: 250000}},
+		Assum: []string{"origins are ASCII (case folding of non-ASCII origins is not pinned down by the statement)", "the predicate is case-insensitive because the code hands it the lower-cased origin in one branch and the raw one in the other"},
+	},
+	{
+		ID: "C09", Level: "exploration",
+		Rule:  "same configuration generator as C08, 70% of the 1-10 requests are OPTIONS preflights to table-derived URLs on ONE filter value: requested method from the configured list, the target route or the pool; 0-5 requested headers in any case with optional spaces. Oracle per element, judged against its own URL: a preflight from an allowed origin runs no later filter, no route, no error writer (200, empty body, empty event log); it is granted (Allow-Origin once, Allow-Methods == allowed set, Allow-Headers present) iff the method is allowed (configured list, else the set routable at that URL measured by probing a twin) and every requested header is allowed ignoring case or the wildcard is configured; otherwise no Access-Control-* header. Any other request from an allowed origin equals the twin's response plus each actual-request header exactly once. Non-trivial: a preflight refused for exactly one reason (one offending header, or only the method), or a sequence whose computed routable sets differ between URLs. Distinct: FNV-64 of the case JSON.",
+		Parts: []partCfg{{Test: "TestC09", Quick: 15000, Thorough: 200000}},
+		Assum: []string{"requested and configured methods are upper case (the statement does not say how case is treated)", "route tables in the fragment both matching engines support, as for C17"},
+	},
 }
